@@ -158,7 +158,9 @@ fn run_agg(job: &Value) {
     let nshards = job["nshards"].as_u64().unwrap_or(1);
     let start = job["start"].as_u64().unwrap_or(0);
     let mut rng = Rng(job["seed"].as_u64().unwrap_or(1).wrapping_mul(0x9E3779B97F4A7C15) ^ (shard + 77));
-    if let Some(e) = job["boundary_e"].as_str() {
+    if let Some(e) = job["nested_e"].as_str() {
+        agg::replay_nested(&mut out, &v, e);
+    } else if let Some(e) = job["boundary_e"].as_str() {
         agg::replay_boundary(&mut out, &v, e, job["exhaustive_len"].as_u64().unwrap_or(2) as usize, job["random_lists"].as_u64().unwrap_or(200) as usize, &mut rng);
     } else {
         let file = std::io::BufReader::new(std::fs::File::open(job["beh"].as_str().unwrap()).unwrap());
